@@ -28,6 +28,7 @@ type vbAttempt struct {
 	conn    int
 	p       refPacket
 	outcome byte // 'o' processed+answered, 'e' write error, 'l' lost, 'a' answer lost, 'd' answer dropped, 'x' connection already closed, 'i' ignored (connection not accepted)
+	at      int64 // virtual time of the attempt (when stamping is on)
 	tag     int  // request tag: PUBLISH payload[0]; SUBSCRIBE/UNSUBSCRIBE filter[1]; PUBREL: tag of the message with that id
 }
 
@@ -77,6 +78,8 @@ type vbroker struct {
 	lastTagOf  []int // per connection: id -> tag is looked up from attempts
 	events     bool
 	silentAll  bool // broker stops answering PINGREQ (C13)
+	noCuts     bool // only the "drop" fault is offered
+	stamp      bool // record virtual times
 }
 
 func itoa(n int) string {
@@ -170,6 +173,9 @@ func (b *vbroker) attempt(c *vconn, raw []byte, alreadyClosed bool) error {
 	verifAssert(refFlagsOK(p), "C05.client_packet_flags")
 	b.seq++
 	a := vbAttempt{seq: b.seq, conn: c.id, p: p, tag: tagOfPacket(p)}
+	if b.stamp {
+		a.at = verifNow()
+	}
 	if p.typ == 6 {
 		a.tag = b.tagOfID(c.id, p.id)
 	}
@@ -189,7 +195,10 @@ func (b *vbroker) attempt(c *vconn, raw []byte, alreadyClosed bool) error {
 	fault := vfNone
 	if b.budget > 0 {
 		kinds := []int{vfNone, vfCutBefore, vfCutAfter}
-		if b.allowWriteErr {
+		if b.noCuts {
+			kinds = []int{vfNone}
+		}
+		if b.allowWriteErr && !b.noCuts {
 			kinds = append(kinds, vfWriteErr)
 		}
 		if b.allowDrop && p.typ != 1 && p.typ != 12 && p.typ != 14 {
